@@ -33,7 +33,7 @@ WATCHED = ("symbols::analyzer::SymbolDeclKind", "symbols::dep_analyzer::SymbolNo
 
 def run(F, R, tier):
     ti = F.body(T + "transform_item")
-    mm = [n for n in ti["_nodes"] if n["k"] == "Match" and expr_text(n["scrut"]) == "decl"]
+    mm = [n for n in ti["_nodes"] if n["k"] == "Match" and tyc(F, n["scrut"], "::ModuleDecl") and peel(n["scrut"]).get("res") == "local"]
     if R.ob("C09-S", "module declaration match found", len(mm) == 1, "shape changed", ti["file"]):
         for arm in mm[0]["arms"]:
             v, _ = pat_variants(arm["pat"])
@@ -45,9 +45,9 @@ def run(F, R, tier):
                 if ok:
                     g = guards_at(F, calls[0], stop_at=arm)
                     conds = [x for x in g if x.kind == "cond"]
-                    ok = len(conds) == 1 and conds[0].pol and expr_text(conds[0].node) == "retain"
+                    ok = len(conds) == 1 and conds[0].pol and peel(conds[0].node).get("res") == "local" and tyc(F, conds[0].node, "bool")
                     if nm == "ExportNamed":
-                        ok = ok and any(x.kind == "pat" and x.pol and "src" in expr_text(x.scrut) for x in g)
+                        ok = ok and any(x.kind == "pat" and x.pol and mentions_field(x.scrut, "src") for x in g)
                 R.ob("C09-S", "%s: a retained statement has its specifier rewritten" % nm, ok,
                      "the retain edge of %s does not pass transform_module_specifier (exactly under `retain`): the emitted module would import the implementation file instead of its types counterpart" % nm, where(arm["body"]))
     ts = F.body(T + "transform_module_specifier")
@@ -176,11 +176,13 @@ def run(F, R, tier):
     sm = [n for n in tm["_nodes"] if n.get("k") == "Call" and (n.get("fn") or "").endswith("SourceMap::single")]
     if R.ob("C09-E", "source map built over a single file", len(sm) == 1, "shape changed", tm["file"]):
         a = sm[0]["args"]
-        R.ob("C09-E", "the map refers to the module's own specifier and its original text", "specifier" in expr_text(a[0]) and "parsed_source" in expr_text(a[1]) and "text" in expr_text(a[1]), "SourceMap::single(%s, %s)" % (expr_text(a[0]), expr_text(a[1])), where(sm[0]))
+        R.ob("C09-E", "the map refers to the module's own specifier and its original text", tyc(F, a[0], "url::Url") and any(y.get("k") == "MethodCall" and y["name"] == "text" and tyc(F, y["recv"], "ParsedSource") for y in walk(a[1])), "SourceMap::single(%s, %s)" % (expr_text(a[0]), expr_text(a[1])), where(sm[0]))
     em = [n for n in tm["_nodes"] if ctor_of(n) and ctor_of(n).endswith("FastCheckDiagnostic::Emit")]
     R.ob("C09-E", "an emit failure becomes a diagnostic", len(em) == 1, "emit errors not mapped to FastCheckDiagnostic::Emit", tm["file"])
     st = [n for n in tm["_nodes"] if n["k"] == "Struct" and n.get("adt") == "fast_check::transform::FastCheckModule"]
     if st:
         f = {x["name"]: x["e"] for x in st[0]["fields"]}
-        ok = "emitted" in expr_text(f["text"]) and "source_map" in expr_text(f["source_map"]) and "emitted_source" in expr_text(f["source_map"])
+        def from_emit(e):
+            return any(mentions_call(y, ["deno_ast::emit", "emit"]) or (peel_value(y).get("k") == "Field" and tyc(F, peel_value(y)["e"], "EmittedSource")) for y in through_locals(peel_value(e) if peel_value(e).get("k") != "MethodCall" else peel_value(e)) for _ in [0]) or any(tyc(F, y, "EmittedSource") for y in walk(e)) or any(tyc(F, z, "EmittedSource") for y in walk(e) if y.get("res") == "local" for i_ in through_locals(y) for z in walk(i_))
+        ok = from_emit(f["text"]) and from_emit(f["source_map"])
         R.ob("C09-E", "text and source map come from the same emit", ok, "text=%s source_map=%s" % (expr_text(f["text"]), expr_text(f["source_map"])), where(st[0]))
